@@ -22,7 +22,8 @@ holds for all their answers.
   that is proved; searched: the C04 contract).
 * `friendly_total`, `friendly_short_record_panics` – exactly when the record indexing panics.
 * `friendly_config_black_wins_ties`, `friendly_ties_go_to_black`.
-* `taktician_silent_off_turn`, `taktician_timeout_rule`. -/
+* `taktician_silent_off_turn`, `taktician_timeout_rule`.
+* observations: `cairn_undo_resigns`, `doubleStack_resume_resigns` (the remembered squares depend on one call per ply). -/
 namespace C20
 open Tak Tak.FPA Tak.Glue Spec.FPA
 
@@ -493,6 +494,90 @@ example : ∃ p0 p1, Pos.new (friendlyConfig true 5) = .ok p0 ∧ p0.apply (Arra
   apply friendly_short_record_panics
   · decide +kernel
   · left; decide
+
+/-! ## the rule's remembered squares and the record can get out of step (observations)
+
+`LegalMove` is where the rules remember squares, and `Friendly.GetMove` calls it once per call, on the newest pair of
+the record.  The opening scripts are therefore right only if `GetMove` is called exactly once per ply, in order —
+true for a game played from the start without undos (the quantifier of C20), not otherwise.  The two theorems below
+are runs of the model on concrete games (replayed on the real code by `corpus/C20/glue-record-state.ops`); they are
+outside what C20 and C07 claim (no illegal move is transmitted, the record stays right), but the bot gives up a
+correctly played game. -/
+
+/-- events of a game as `Friendly.GetMove` sees it through the bot loop: the record grows by a move, shrinks by
+an `Undo`, and `GetMove` is called on the newest position (`call`) -/
+inductive Ev where
+  | move (m : Move)
+  | undo
+  | call
+deriving Repr, DecidableEq
+
+structure Trace where
+  fpa : Option (Variant × Rule)
+  positions : List Pos
+  moves : List Move
+  actions : List Action     -- oldest first
+  failed : Bool := false    -- an illegal move, an undo on the start position, or a panic
+
+/-- run events on the model (all hash-independent: the Zobrist basis is irrelevant to the actions) -/
+def runEvents (color : Color) (size : Nat) (o : CheckOracle) : Trace → List Ev → Trace
+  | t, [] => t
+  | t, e :: es =>
+    if t.failed then t else
+    match e, t.positions, t.moves with
+    | .move m, p :: ps, ms =>
+      match p.apply (Array.replicate 64 0#64) m with
+      | .ok q => runEvents color size o { t with positions := q :: p :: ps, moves := m :: ms } es
+      | .error _ => { t with failed := true }
+    | .undo, _ :: q :: ps, _ :: ms => runEvents color size o { t with positions := q :: ps, moves := ms } es
+    | .call, p :: ps, ms =>
+      match Glue.friendlyGetMove t.fpa { color := color, size := size, positions := p :: ps, moves := ms } p o with
+      | .ok (f, a) => runEvents color size o { t with fpa := f, actions := t.actions ++ [a] } es
+      | .error _ => { t with failed := true }
+    | _, _, _ => { t with failed := true }
+
+def startTrace (var : Variant) (size : Nat) : Option Trace :=
+  match Pos.new (friendlyConfig true size) with
+  | .ok p0 => some { fpa := some (var, {}), positions := [p0], moves := [], actions := [] }
+  | .error _ => none
+
+def quiet : CheckOracle := { curV := 0, curDepth := 3, prevV := 0 }
+
+def slideR (x y : Int) : Move := { x := x, y := y, type := Facts.mtSlideRight, slides := slide1 }
+def slideL (x y : Int) : Move := { x := x, y := y, type := Facts.mtSlideLeft, slides := slide1 }
+
+/-- the undisturbed cairn opening, bot White, 5×5: `a1 e5`, script `b3`, Black `c2`, script `b3>`, Black captures
+`c2+`: scripted moves at plies 2 and 4, no resignation -/
+theorem cairn_opening_runs :
+    (startTrace .cairn 5).map (fun t => (runEvents .white 5 quiet t
+        [.call, .move (place 0 0), .call, .move (place 4 4), .call, .move (place 1 2), .call, .move (place 2 1), .call,
+         .move (slideR 1 2), .call, .move { x := 2, y := 1, type := Facts.mtSlideUp, slides := slide1 }, .call]).actions) =
+      some [.think (some Facts.maxThink) (some .minThink), .noMove, .move (place 1 2), .noMove, .move (slideR 1 2), .noMove,
+            .think (some Facts.maxThink) (some .minThink)] := by
+  decide +kernel
+
+/-- **An `Undo` inside the cairn opening makes the bot resign a correctly played game.**  Same game; after the
+bot's scripted slide `b3>` the opponent asks to undo it (`Friendly.AcceptUndo` always agrees).  The check of that
+slide had overwritten `whitePlace` with the centre square, so the re-check of Black's (accepted) stone `c2` now
+measures distance 1 instead of 2: `Resign`, telling Black they misplaced their stone (`cairnErrors[3]`). -/
+theorem cairn_undo_resigns :
+    (startTrace .cairn 5).map (fun t => (runEvents .white 5 quiet t
+        [.call, .move (place 0 0), .call, .move (place 4 4), .call, .move (place 1 2), .call, .move (place 2 1), .call,
+         .move (slideR 1 2), .call, .undo, .call]).actions) =
+      some [.think (some Facts.maxThink) (some .minThink), .noMove, .move (place 1 2), .noMove, .move (slideR 1 2), .noMove,
+            .resign (.cairn 3)] := by
+  decide +kernel
+
+/-- **A game resumed inside the opening loses the remembered squares.**  Double stack, bot Black, 5×5: the server
+replays `c3 d4 d4<` (no `GetMove` call in between, as after a reconnect), then the bot is asked: it scripts `b1` —
+next to `a1`, the zero value of `blackPlace`, not next to its stone on `c3` — and after White's correct return `c4>`
+it resigns, telling White they should have moved back to where they started (`doubleStackErrors[4]`). -/
+theorem doubleStack_resume_resigns :
+    (startTrace .doubleStack 5).map (fun t => (runEvents .black 5 quiet t
+        [.move (place 2 2), .move (place 3 3), .move (slideL 3 3), .call, .move (place 1 0), .call,
+         .move (slideR 2 3), .call]).actions) =
+      some [.move (place 1 0), .noMove, .resign (.doubleStack 4)] := by
+  decide +kernel
 
 /-! ## `Config` -/
 
